@@ -30,12 +30,18 @@ ENUM_TYPES = {
     # int- / str-mixin enums (IntEnum, (int, Enum), StrEnum, (str, Enum)): members are ints / strs too
     ('ptasks', 'Verbosity'): ['QUIET', 'LOUD'], ('ptasks', 'Retries'): ['NONE', 'ONCE'], ('ptasks2', 'Verbosity'): ['QUIET', 'LOUD'],
     ('ptasks', 'Dataset'): ['TRAIN', 'TEST'], ('ptasks', 'Split'): ['TRAIN', 'TEST'], ('ptasks2', 'Dataset'): ['TRAIN', 'TEST'],
+    # enum classes nested in holder classes (dotted qualname): same __name__ in two holders and at module level, same
+    # qualname in two modules, two levels deep, an int-mixin one
+    ('ptasks', 'Variant'): ['SMALL', 'LARGE'], ('ptasks', 'ModelA.Variant'): ['SMALL', 'LARGE'], ('ptasks', 'ModelB.Variant'): ['SMALL', 'LARGE'],
+    ('ptasks2', 'ModelA.Variant'): ['SMALL', 'LARGE'], ('ptasks', 'Outer.Inner.Kind'): ['SMALL', 'OTHER'], ('ptasks', 'ModelA.Level'): ['LOW', 'HIGH'],
 }
 # the bare value a mixin enum member is an instance of (and Python-equal to), as a spec
 MIXIN_VALUE = {}
 for _cls in [('ptasks', 'Verbosity'), ('ptasks', 'Retries'), ('ptasks2', 'Verbosity')]:
     MIXIN_VALUE[_cls + ('QUIET' if _cls[1] == 'Verbosity' else 'NONE',)] = ['int', 0]
     MIXIN_VALUE[_cls + ('LOUD' if _cls[1] == 'Verbosity' else 'ONCE',)] = ['int', 1]
+MIXIN_VALUE[('ptasks', 'ModelA.Level', 'LOW')] = ['int', 0]
+MIXIN_VALUE[('ptasks', 'ModelA.Level', 'HIGH')] = ['int', 1]
 for _cls in [('ptasks', 'Dataset'), ('ptasks', 'Split'), ('ptasks2', 'Dataset')]:
     MIXIN_VALUE[_cls + ('TRAIN',)] = ['str', 'train']
     MIXIN_VALUE[_cls + ('TEST',)] = ['str', 'test']
@@ -148,7 +154,23 @@ def _xkey(kind):
 
 
 def cls_of(mod, qual):
-    return getattr(importlib.import_module(mod), qual)
+    """the class `qual` (a qualified name: 'Leaf', 'ModelA.Variant') of module `mod`"""
+    obj = importlib.import_module(mod)
+    for part in qual.split('.'):
+        obj = getattr(obj, part)
+    return obj
+
+
+def model_ref(mod, qual):
+    """how a class is named towards the Lean model, whose `ClassRef` is the pair that `rsplit('.', 1)` of the
+    serialised class string gives: for a class nested in a holder class (dotted qualname) the holder path is
+    written into the module part - ('ptasks', 'ModelA.Variant') is ('ptasks.ModelA', 'Variant').  Both spellings
+    serialise to the same string 'ptasks.ModelA.Variant' (which is all the cache key and metadata.json see); the
+    import-the-longest-prefix search of deserialize_class is not modelled, the model's registry is asked with the pair."""
+    if '.' in qual:
+        outer, inner = qual.rsplit('.', 1)
+        return mod + '.' + outer, inner
+    return mod, qual
 
 
 def build(spec):
@@ -201,7 +223,7 @@ def words(spec, out=None):
     elif t == 'str':
         out.append('S' + hx(spec[1]))
     elif t == 'enum':
-        out.append('E%s:%s:%s' % (hx(spec[1]), hx(spec[2]), hx(spec[3])))
+        out.append('E%s:%s:%s' % (tuple(hx(x) for x in model_ref(spec[1], spec[2])) + (hx(spec[3]),)))
     elif t in ('list', 'tuple'):
         out.append(('L' if t == 'list' else 'T') + str(len(spec[1])))
         for s in spec[1]:
@@ -242,7 +264,7 @@ def show(v, canon=False):
     if type(v) is str:
         return 'S' + hx(v)
     if isinstance(v, Enum):
-        return 'E%s:%s:%s' % (hx(type(v).__module__), hx(type(v).__qualname__), hx(v.name))
+        return 'E%s:%s:%s' % (tuple(hx(x) for x in model_ref(type(v).__module__, type(v).__qualname__)) + (hx(v.name),))
     if type(v) is tuple:
         return 'T%d(%s)' % (len(v), ','.join(show(i) for i in v))
     if type(v) is frozendict:
